@@ -42,6 +42,45 @@ Proof.
   simpl. rewrite (scan_outcome_probes _ _ H1), IH. reflexivity.
 Qed.
 
+(* ---- scans and error records together (application scans) ---- *)
+Definition no_fail (so : nat -> scan_res) : Prop := forall id, so id <> SFail.
+
+Lemma failed_errdue so reqs : no_fail so -> failed_list so reqs = errdue all_ok all_ok reqs.
+Proof.
+  intros Hnf. unfold failed_list, errdue. induction reqs as [|[i b] l IH]; [reflexivity|].
+  assert (Hb : failed_b so (i, b) = negb (sent_b all_ok all_ok (i, b))).
+  { unfold failed_b, sent_b, all_ok. simpl. specialize (Hnf i).
+    destruct (so i); try congruence; destruct b; reflexivity. }
+  rewrite !filter_cons.
+  destruct (decide (failed_b so (i, b) = true)) as [Hf|Hf];
+    destruct (decide (sent_b all_ok all_ok (i, b) = false)) as [Hs|Hs].
+  - simpl. f_equal. exact IH.
+  - exfalso. rewrite Hb in Hf. destruct (sent_b all_ok all_ok (i, b)); [discriminate|]. apply Hs. reflexivity.
+  - exfalso. rewrite Hb, Hs in Hf. apply Hf. reflexivity.
+  - exact IH.
+Qed.
+
+(* [ws] = the targets handed to Scan, [es] = the causes of the error records logged, in an uncancelled run of the
+   generic engine under startScanEngine on [evs] that has signalled completion and whose error stream is drained;
+   no probe fails (probe failures are error records of their own: C08_errors_exact) *)
+Definition app_outcome (evs : list event) (ws : list (ip * Z)) (es : list gerr) : Prop :=
+  exists W cap scan_out s,
+    0 < W /\ no_fail scan_out /\ reachable (beh W scan_out) (init W cap (to_reqs evs)) s /\
+    cancelled s = false /\ chan_closed s c_done /\
+    (forall ch, chans s !! c_errc = Some ch -> cbuf ch = []) /\
+    (forall j l, procs s !! j = Some l -> role_of l = RDrain -> weight l = ∅) /\
+    ws = flat_map (frame_at evs) (scan_list s) /\ es = flat_map (error_at evs) (errlog_list s).
+
+Lemma app_outcome_exact evs ws es : app_outcome evs ws es -> ws ≡ₚ probes evs /\ es ≡ₚ errors evs.
+Proof.
+  intros (W & cap & so & s & HW & Hnf & Hr & Hc & Hd & He & Hi & -> & ->). split.
+  - rewrite (engine_scans_exact W so (to_reqs evs) (to_reqs_NoDup evs) cap s HW Hr Hc Hd).
+    rewrite <- due_good. pose proof (due_frames [] evs) as H. simpl in H. unfold to_reqs. rewrite H. reflexivity.
+  - rewrite (engine_errors_exact W so (to_reqs evs) (to_reqs_NoDup evs) cap s HW Hr Hc Hd He Hi).
+    rewrite (failed_errdue so _ Hnf).
+    pose proof (errdue_errors [] evs) as H. simpl in H. unfold to_reqs. rewrite H. reflexivity.
+Qed.
+
 Section Commands.
 Variable table : list row.
 Hypothesis table_good : table_ok table.
